@@ -523,7 +523,61 @@ Definition finish (fuel : nat) (t : list name) (m : member) (set_attrs : bool) (
    [before]/[whole]: archive members in reverse order as TarFile.members holds
    them when this member is extracted (names of already processed members are
    the ones Bob rewrote).  [nested]: called from the fall-back of makelink.
-   [depth] bounds the recursion of the fall-back (RecursionError). *)
+   [member_body]: the part of _extract_member after the parent directories
+   exist; [rec fsx fm] = self._extract_member(fm, targetpath) of the fall-back. *)
+Definition member_body (rec : fsys -> member -> xres) (fuel : nat) (fs0 : fsys) (t : list name)
+                       (s : option (list name)) (m : member) (set_attrs nested : bool)
+                       (before whole : list member) : xres :=
+  (* except symlink_exception / target missing: extract the member the link refers to instead *)
+  let fallback (fsx : fsys) (found : option member) (caught : bool) : xres :=
+    match found with
+    | None => mkX fsx (if caught then MNonfatal else MFatal) true false      (* KeyError *)
+    | Some fm => let r := rec fsx fm in mkX (x_fs r) (x_st r) true (x_nmk r)
+    end in
+  match m_kind m with
+  | MReg =>
+    (* makefile() first seeks to the member data: impossible for an earlier member of a stream *)
+    if nested then mkX fs0 MFatal false false
+    else
+    match sys_write fuel fs0 t (m_data m) with
+    | (fs1, None) => finish fuel t m set_attrs (mkX fs1 MOk false false)
+    | (fs1, Some _) => mkX fs1 MFatal false false
+    end
+  | MDir =>
+    match sys_mkdir fuel fs0 t 448 with
+    | (fs1, Some EOTHER) => mkX fs1 MFatal false false
+    | (fs1, _) => finish fuel t m set_attrs (mkX fs1 MOk false false)
+    end
+  | MFifo | MChr | MBlk =>
+    match sys_mknode fuel fs0 t (mknode_of m) with
+    | (fs1, None) => finish fuel t m set_attrs (mkX fs1 MOk false false)
+    | (fs1, Some _) => mkX fs1 MFatal false false
+    end
+  | MSym =>
+    let '(fs1, e1) := if sys_lexists fuel fs0 t then sys_unlink fuel fs0 t else (fs0, None) in
+    match e1 with
+    | Some _ => finish fuel t m set_attrs (fallback fs1 (find_member (sym_search_name m) whole) true)
+    | None =>
+      match sys_mknode fuel fs1 t (mknode_of m) with
+      | (fs2, None) => finish fuel t m set_attrs (mkX fs2 MOk false false)
+      | (fs2, Some _) => finish fuel t m set_attrs (fallback fs2 (find_member (sym_search_name m) whole) true)
+      end
+    end
+  | MLnk =>
+    match s with
+    | None => mkX fs0 MFatal false false                       (* os.path.exists(None): TypeError *)
+    | Some src =>
+      if sys_exists fuel fs0 src then
+        match sys_link fuel fs0 src t with
+        | (fs1, None) => finish fuel t m set_attrs (mkX fs1 MOk false false)
+        | (fs1, Some _) => finish fuel t m set_attrs (fallback fs1 (find_member (normname (m_link m)) before) true)
+        end
+      else finish fuel t m set_attrs (fallback fs0 (find_member (normname (m_link m)) before) false)
+    end
+  end.
+
+(* TarFile._extract_member(tarinfo, targetpath, set_attrs); [depth] bounds the
+   recursion of the fall-back (RecursionError). *)
 Fixpoint extract_member (depth : nat) (fuel : nat) (fs : fsys) (t : list name) (s : option (list name))
                         (m : member) (set_attrs : bool) (nested : bool) (before whole : list member)
                         {struct depth} : xres :=
@@ -537,55 +591,9 @@ Fixpoint extract_member (depth : nat) (fuel : nat) (fs : fsys) (t : list name) (
     match e0 with
     | Some _ => mkX fs0 MFatal false k0
     | None =>
-      (* except symlink_exception / target missing: extract the member the link refers to instead *)
-      let fallback (fsx : fsys) (found : option member) (caught : bool) : xres :=
-        match found with
-        | None => mkX fsx (if caught then MNonfatal else MFatal) true k0      (* KeyError *)
-        | Some fm =>
-          let r := extract_member depth' fuel fsx t None fm true true [] whole in
-          mkX (x_fs r) (x_st r) true (k0 || x_nmk r)
-        end in
-      match m_kind m with
-      | MReg =>
-        (* makefile() first seeks to the member data: impossible for an earlier member of a stream *)
-        if nested then mkX fs0 MFatal false k0
-        else
-        match sys_write fuel fs0 t (m_data m) with
-        | (fs1, None) => finish fuel t m set_attrs (mkX fs1 MOk false k0)
-        | (fs1, Some _) => mkX fs1 MFatal false k0
-        end
-      | MDir =>
-        match sys_mkdir fuel fs0 t 448 with
-        | (fs1, Some EOTHER) => mkX fs1 MFatal false k0
-        | (fs1, _) => finish fuel t m set_attrs (mkX fs1 MOk false k0)
-        end
-      | MFifo | MChr | MBlk =>
-        match sys_mknode fuel fs0 t (mknode_of m) with
-        | (fs1, None) => finish fuel t m set_attrs (mkX fs1 MOk false k0)
-        | (fs1, Some _) => mkX fs1 MFatal false k0
-        end
-      | MSym =>
-        let '(fs1, e1) := if sys_lexists fuel fs0 t then sys_unlink fuel fs0 t else (fs0, None) in
-        match e1 with
-        | Some _ => finish fuel t m set_attrs (fallback fs1 (find_member (sym_search_name m) whole) true)
-        | None =>
-          match sys_mknode fuel fs1 t (mknode_of m) with
-          | (fs2, None) => finish fuel t m set_attrs (mkX fs2 MOk false k0)
-          | (fs2, Some _) => finish fuel t m set_attrs (fallback fs2 (find_member (sym_search_name m) whole) true)
-          end
-        end
-      | MLnk =>
-        match s with
-        | None => mkX fs0 MFatal false k0                       (* os.path.exists(None): TypeError *)
-        | Some src =>
-          if sys_exists fuel fs0 src then
-            match sys_link fuel fs0 src t with
-            | (fs1, None) => finish fuel t m set_attrs (mkX fs1 MOk false k0)
-            | (fs1, Some _) => finish fuel t m set_attrs (fallback fs1 (find_member (normname (m_link m)) before) true)
-            end
-          else finish fuel t m set_attrs (fallback fs0 (find_member (normname (m_link m)) before) false)
-        end
-      end
+      let r := member_body (fun fsx fm => extract_member depth' fuel fsx t None fm true true [] whole)
+                           fuel fs0 t s m set_attrs nested before whole in
+      mkX (x_fs r) (x_st r) (x_consumed r) (k0 || x_nmk r)
     end
   end.
 
@@ -627,7 +635,10 @@ Fixpoint extract_loop (fuel : nat) (fs : fsys) (audit dest : path)
         match x_st r, x_consumed r with
         | MFatal, _ => (x_fs r, Rejected, x_nmk r)
         | _, true => (x_fs r, Rejected, x_nmk r)              (* next tar.next(): StreamError *)
-        | _, false => extract_loop fuel (x_fs r) audit dest (f' :: done_rev) rest
+        | _, false =>
+          match extract_loop fuel (x_fs r) audit dest (f' :: done_rev) rest with
+          | (fs2, o, k) => (fs2, o, x_nmk r || k)
+          end
         end
     else if str_eqb (m_name f) AUDIT_NAME then
       match m_kind f with
@@ -838,3 +849,56 @@ Definition same_outside (ok : path -> bool) (fs fs' : fsys) : Prop :=
   forall p, ok p = false ->
     stat fs' p = stat fs p /\
     (forall i, stat fs p = Some (SLeaf i) -> inode_of fs' i = inode_of fs i).
+
+(* a canonical path: no "", "." or ".." components *)
+Definition plain (cs : list name) : Prop :=
+  forallb (fun c => negb (skip_comp c) && negb (is_dotdot c)) cs = true.
+
+(* the inode allocator hands out unused numbers *)
+Definition fresh_ok (fs : fsys) : Prop := forall p i, stat fs p = Some (SLeaf i) -> i < f_next fs.
+
+(* member names the extraction loop knows *)
+Definition classified (m : member) : bool :=
+  starts_with CONTENT_PREFIX (m_name m) || str_eqb (m_name m) AUDIT_NAME
+  || str_eqb (m_name m) CONTENT_NAME || str_eqb (m_name m) META_NAME.
+
+(* ---- packing followed by extraction: what is compared and what is assumed *)
+(* a directory entry name: not empty, not "." or "..", no '/' *)
+Definition good_name (n : name) : Prop :=
+  skip_comp n = false /\ is_dotdot n = false /\ forallb (fun c => negb (c =? SLASH)) n = true.
+
+
+(* a node of the source tree (inodes of sfs) and a node of the target file system (inodes of fs) *)
+Definition node_match (sfs : fsys) (sn : option snode) (fs : fsys) (tn : option snode) : Prop :=
+  match sn, tn with
+  | None, None => True
+  | Some (SDir m), Some (SDir m') => m = m'
+  | Some (SLeaf i), Some (SLeaf j) => inode_of fs j = inode_of sfs i /\ inode_of sfs i <> None
+  | _, _ => False
+  end.
+
+(* what pack can represent exactly: every inode exists; symlinks carry mode 0o777, fifos no data *)
+Definition inode_ok (v : inode) : Prop :=
+  match i_kind v with KSym => i_mode v = 511 | KFifo => i_data v = [] | _ => True end.
+
+Fixpoint src_ok (sfs : fsys) (t : tree) : Prop :=
+  match t with
+  | TLeaf i => exists v, inode_of sfs i = Some v /\ inode_ok v
+  | TDir m es =>
+    NoDup (map fst es) /\ Forall good_name (map fst es) /\
+    (fix go (es : list (name * tree)) : Prop :=
+       match es with [] => True | (n, c) :: r => src_ok sfs c /\ go r end) es
+  end.
+
+
+(* the state extraction starts from: canonical, not nested paths whose ancestors are directories *)
+Record target_ok (fs : fsys) (audit dest : path) : Prop := mkTarget {
+  tk_dplain : plain dest;
+  tk_aplain : plain audit;
+  tk_da : is_prefix dest audit = false;
+  tk_ad : is_prefix audit dest = false;
+  tk_fresh : fresh_ok fs;
+  tk_danc : forall x b, dest = x ++ b -> b <> [] -> is_dir fs x = true;
+  tk_aanc : forall x b, audit = x ++ b -> b <> [] -> is_dir fs x = true
+}.
+
